@@ -93,30 +93,55 @@ pub fn eval_kinds<F: Function>(
         }
         kinds.push(per);
     }
-    // gradient slice (value component, zero seeds)
+    // gradient slice: value and the three derivative components, with a fixed
+    // seed gradient per input slot (unit axes, then a mixed one)
     {
         let t = f.grad_slice_tape(Default::default());
         let mut e = F::new_grad_slice_eval();
         let nin = pts.first().map(|p| p.len()).unwrap_or(0);
+        let seed = |i: usize, v: f32| match i % 4 {
+            0 => Grad::new(v, 1.0, 0.0, 0.0),
+            1 => Grad::new(v, 0.0, 1.0, 0.0),
+            2 => Grad::new(v, 0.0, 0.0, 1.0),
+            _ => Grad::new(v, 0.5, -2.0, 0.25),
+        };
         let cols: Vec<Vec<Grad>> = (0..nin)
-            .map(|i| pts.iter().map(|p| Grad::from(p[i])).collect())
+            .map(|i| pts.iter().map(|p| seed(i, p[i])).collect())
             .collect();
         let o = e
             .eval(&t, &cols)
             .map_err(|e| Fail::new("eval-error", format!("{e:?}")))?;
         ensure!(o.len() == nout, "output-len", "grad: {} != {nout}", o.len());
-        let mut per = vec![];
-        if nin > 0 {
-            for i in 0..pts.len() {
-                per.push((0..nout).map(|k| o[k][i].v).collect());
+        for comp in 0..4 {
+            let mut per = vec![];
+            if nin > 0 {
+                for i in 0..pts.len() {
+                    per.push(
+                        (0..nout)
+                            .map(|k| match comp {
+                                0 => o[k][i].v,
+                                1 => o[k][i].dx,
+                                2 => o[k][i].dy,
+                                _ => o[k][i].dz,
+                            })
+                            .collect(),
+                    );
+                }
             }
+            kinds.push(per);
         }
-        kinds.push(per);
     }
     Ok(kinds)
 }
 
-pub const KIND_NAMES: [&str; 3] = ["point", "float-slice", "grad-slice.v"];
+pub const KIND_NAMES: [&str; 6] = [
+    "point",
+    "float-slice",
+    "grad-slice.v",
+    "grad-slice.dx",
+    "grad-slice.dy",
+    "grad-slice.dz",
+];
 
 /// True if, below `root`, some node has a NaN value although none of its
 /// operands is NaN and one of them is infinite (inf*0, inf/inf, inf-inf,
@@ -444,7 +469,7 @@ where
             let order = topo(&env.b.ctx, env.roots);
             let taint = ref_taint(&env.b.ctx, &order, &vals);
             let gtaint = ref_taint_ext(&env.b.ctx, &order, &vals, true, false);
-            for kind in 0..3 {
+            for kind in 0..KIND_NAMES.len() {
                 if pk[kind].is_empty() {
                     continue;
                 }
@@ -461,7 +486,7 @@ where
                         // rand / mix of a zero (or atan2(0, 0)): the interval
                         // evaluator hashes the other zero's bit pattern
                         "F6-interval-hash-of-zero"
-                    } else if kind == 2 && gtaint[&root] {
+                    } else if kind >= 2 && gtaint[&root] {
                         "F12-grad-abs-negative-zero-amplified"
                     } else if nan_from_inf(env.b, root, &vals) {
                         "F11-interval-ignores-nan-from-infinity"
@@ -672,7 +697,7 @@ impl Prop for P {
             vec(any::<u16>(), 1..=5),
             vec(interval_strategy(1e6), 8..=8),
             vec(step, 1..=4),
-            vec(vec(0u16..=1000, 8..=8), 2..=8),
+            crate::p03::samples_strategy(2..=8),
             prop_oneof![3 => Just(0u8), 7 => 1u8..=(PAIRS.len() as u8)],
         )
             .prop_map(|(dag, outs, boxes, steps, samples, backend)| { let boxes = gens::coincide_boxes(&dag, boxes, 1e6); Case {
